@@ -9,6 +9,7 @@ mod fault;
 mod history;
 mod image;
 mod mm;
+mod mt;
 mod out;
 mod pure;
 mod rng;
@@ -62,6 +63,7 @@ fn main() {
         "compat" => compat::run(&args),
         "corrupt" => corrupt::run(&args),
         "sched" => sched::run(&args),
+        "mt" => mt::run(&args),
         other => {
             eprintln!("unknown command {other}");
             std::process::exit(2);
